@@ -649,6 +649,12 @@ func (e *ApplyTxError) UnmarshalCBOR(data []byte) error {
 		case failureType == ApplyTxErrorUtxowFailure:
 			// Use era-aware UTXOW failure decoding
 			utxowErr := &UtxowFailure{era: e.era}
+			if len(tmpFailure) < 2 {
+				return fmt.Errorf(
+					"UTXOW failure must have at least 2 elements, got %d",
+					len(tmpFailure),
+				)
+			}
 			if _, err := cbor.Decode(tmpFailure[1], utxowErr); err != nil {
 				return err
 			}
